@@ -2424,6 +2424,17 @@ _dbus_connection_block_pending_call (DBusPendingCall *pending)
   /* Flush message queue - note, can affect dispatch status */
   _dbus_connection_flush_unlocked (connection);
 
+  /* Flushing drops the lock, so another thread might have completed
+   * the call since we looked. Its reply must not be looked for again
+   * (a late or duplicate reply in the queue would complete it twice). */
+  if (_dbus_pending_call_get_completed_unlocked (pending))
+    {
+      status = _dbus_connection_get_dispatch_status_unlocked (connection);
+      _dbus_connection_update_dispatch_status_and_unlock (connection, status);
+      dbus_pending_call_unref (pending);
+      return;
+    }
+
   client_serial = _dbus_pending_call_get_reply_serial_unlocked (pending);
 
   /* note that timeout_milliseconds is limited to a smallish value
